@@ -347,14 +347,14 @@ def read_sinex_matrix(file):
             for i in range(len(code)):
                 info = (code[i], soln[i], element[6 * i][6 * i],
                         element[6 * i + 1][6 * i],
-                        element[6 * i + 1][6 * i + 1],
                         element[6 * i + 2][6 * i],
+                        element[6 * i + 1][6 * i + 1],
                         element[6 * i + 2][6 * i + 1],
                         element[6 * i + 2][6 * i + 2],
                         element[6 * i + 3][6 * i + 3],
                         element[6 * i + 4][6 * i + 3],
-                        element[6 * i + 4][6 * i + 4],
                         element[6 * i + 5][6 * i + 3],
+                        element[6 * i + 4][6 * i + 4],
                         element[6 * i + 5][6 * i + 4],
                         element[6 * i + 5][6 * i + 5])
                 matrix.append(info)
@@ -377,8 +377,8 @@ def read_sinex_matrix(file):
             for i in range(len(code)):
                 info = (code[i], soln[i], element[3 * i][3 * i],
                         element[3 * i + 1][3 * i],
-                        element[3 * i + 1][3 * i + 1],
                         element[3 * i + 2][3 * i],
+                        element[3 * i + 1][3 * i + 1],
                         element[3 * i + 2][3 * i + 1],
                         element[3 * i + 2][3 * i + 2])
                 matrix.append(info)
